@@ -72,6 +72,8 @@ type cmp struct {
 	leaf      map[ssa.Value]ssa.Value
 	leafRange map[ssa.Value]bool
 	argShift  bool
+	// Sub (x side) against Opp (y side) of one package: Sub's arg1[i] is the constant 0, Sub's arg2[i] is Opp's arg1[i]
+	subOpp bool
 }
 
 func constU64(v ssa.Value) (uint64, bool) {
@@ -128,6 +130,32 @@ func (c *cmp) stripMask(v ssa.Value, own, other *Modulus) ssa.Value {
 func (c *cmp) same(x, y ssa.Value) bool {
 	if c.resA != nil {
 		x, y = c.resA(x), c.resB(y)
+	}
+	if c.subOpp {
+		if ld, ok := x.(*ssa.UnOp); ok && ld.Op == token.MUL {
+			if ia, ok := ld.X.(*ssa.IndexAddr); ok {
+				if pa, isP := ia.X.(*ssa.Parameter); isP && paramIndex(pa) == 1 {
+					if k, isC := constU64(y); isC && k == 0 {
+						return true
+					}
+					return c.fail(y.Pos(), "Opp is not Sub with a zero minuend: %s where the constant 0 is expected", y.Name())
+				}
+				if pa, isP := ia.X.(*ssa.Parameter); isP && paramIndex(pa) == 2 {
+					if ly, ok := y.(*ssa.UnOp); ok && ly.Op == token.MUL {
+						if ib, ok := ly.X.(*ssa.IndexAddr); ok {
+							if pb, isQ := ib.X.(*ssa.Parameter); isQ && paramIndex(pb) == 1 {
+								ka, okA := constU64(ia.Index)
+								kb, okB := constU64(ib.Index)
+								if okA && okB && ka == kb {
+									return true
+								}
+							}
+						}
+					}
+					return c.fail(y.Pos(), "Opp is not Sub with a zero minuend: limb mismatch")
+				}
+			}
+		}
 	}
 	if c.leaf != nil {
 		if v, ok := c.leaf[x]; ok {
@@ -384,13 +412,26 @@ func rootParam(v ssa.Value) *ssa.Parameter {
 type localMap map[*ssa.Alloc]ssa.Value
 
 // CompareDAG compares the data flow of two same-named primitives.
+// CompareOppSub checks the negation primitive against the subtraction of its own package: Opp(out, a) must be the
+// data-flow graph of Sub(out, 0, a).  (The scalar package's Opp is commented out, so field.Opp has no sibling.)
+func CompareOppSub(opp, sub *ssa.Function, m *Modulus) Result {
+	return compareDAG(sub, opp, m, m, func(c *cmp) { c.subOpp = true })
+}
+
 func CompareDAG(fa, fb *ssa.Function, ma, mb *Modulus) Result {
+	return compareDAG(fa, fb, ma, mb, nil)
+}
+
+func compareDAG(fa, fb *ssa.Function, ma, mb *Modulus, opt func(*cmp)) Result {
 	res := Result{Name: fa.Name(), Mode: "dag"}
 	if len(fa.Blocks) != 1 || len(fb.Blocks) != 1 {
 		res.Diff = &Diff{Fn: fa.Name(), Pos: fa.Pos(), Msg: "a generated primitive has control flow"}
 		return res
 	}
 	c := &cmp{a: ma, b: mb, memo: map[[2]ssa.Value]bool{}, fnName: fa.Name()}
+	if opt != nil {
+		opt(c)
+	}
 	// calls with pointer-to-local results (cmovznzU64(&x, ...)) : treat the local as the call's output
 	sa, sb := outStores(fa), outStores(fb)
 	res.Stores = len(sa)
@@ -855,4 +896,107 @@ func Rounds(fn *ssa.Function, m *Modulus) RoundsResult {
 		}
 	}
 	return res
+}
+
+
+// SetOneOK decides SetOne exactly: one block, four stores out1[i] = limb i of R mod m, every index once.
+func SetOneOK(fn *ssa.Function, m *Modulus) (bool, token.Pos, string) {
+	if len(fn.Blocks) != 1 {
+		return false, fn.Pos(), "control flow in SetOne"
+	}
+	r := new(big.Int).Lsh(big.NewInt(1), 256)
+	r.Mod(r, m.M)
+	seen := map[uint64]bool{}
+	sts := outStores(fn)
+	if len(sts) != 4 {
+		return false, fn.Pos(), fmt.Sprintf("%d output stores, expected 4", len(sts))
+	}
+	mask := new(big.Int).SetUint64(^uint64(0))
+	for _, st := range sts {
+		ia, ok := st.Addr.(*ssa.IndexAddr)
+		if !ok {
+			return false, st.Pos(), "store that is not an element of the output"
+		}
+		if pa, isP := ia.X.(*ssa.Parameter); !isP || paramIndex(pa) != 0 {
+			return false, st.Pos(), "store that is not an element of the output"
+		}
+		i, okI := constU64(ia.Index)
+		v, okV := constU64(st.Val)
+		if !okI || !okV || i > 3 {
+			return false, st.Pos(), "store with a non-constant index or value"
+		}
+		if seen[i] {
+			return false, st.Pos(), fmt.Sprintf("out1[%d] is stored twice (another limb is left unset)", i)
+		}
+		seen[i] = true
+		want := new(big.Int).And(new(big.Int).Rsh(r, uint(64*i)), mask).Uint64()
+		if v != want {
+			return false, st.Pos(), fmt.Sprintf("out1[%d] = %#x, but limb %d of R mod m is %#x", i, v, i, want)
+		}
+	}
+	return true, token.NoPos, ""
+}
+
+// NonzeroOK decides Nonzero exactly: *out1 = arg1[0] | arg1[1] | arg1[2] | arg1[3] (every limb once, nothing else).
+func NonzeroOK(fn *ssa.Function) (bool, token.Pos, string) {
+	if len(fn.Blocks) != 1 {
+		return false, fn.Pos(), "control flow in Nonzero"
+	}
+	var st *ssa.Store
+	for _, in := range fn.Blocks[0].Instrs {
+		if s, ok := in.(*ssa.Store); ok {
+			if st != nil {
+				return false, s.Pos(), "more than one store"
+			}
+			st = s
+		}
+	}
+	if st == nil {
+		return false, fn.Pos(), "no store to the output"
+	}
+	if pa, isP := st.Addr.(*ssa.Parameter); !isP || paramIndex(pa) != 0 {
+		return false, st.Pos(), "the store does not go to *out1"
+	}
+	seen := map[uint64]int{}
+	bad := ""
+	var walk func(v ssa.Value)
+	walk = func(v ssa.Value) {
+		switch x := v.(type) {
+		case *ssa.BinOp:
+			if x.Op != token.OR {
+				bad = "operation " + x.Op.String() + " where only | is expected"
+				return
+			}
+			walk(x.X)
+			walk(x.Y)
+		case *ssa.UnOp:
+			ia, ok := x.X.(*ssa.IndexAddr)
+			if x.Op != token.MUL || !ok {
+				bad = "operand that is not a limb of the argument"
+				return
+			}
+			pa, isP := ia.X.(*ssa.Parameter)
+			i, okI := constU64(ia.Index)
+			if !isP || paramIndex(pa) != 1 || !okI {
+				bad = "operand that is not a limb of the argument"
+				return
+			}
+			seen[i]++
+		default:
+			bad = "operand that is not a limb of the argument"
+		}
+	}
+	walk(st.Val)
+	if bad != "" {
+		return false, st.Pos(), bad
+	}
+	for i := uint64(0); i < 4; i++ {
+		if seen[i] != 1 {
+			return false, st.Pos(), fmt.Sprintf("limb arg1[%d] occurs %d time(s) in the disjunction", i, seen[i])
+		}
+	}
+	if len(seen) != 4 {
+		return false, st.Pos(), "a limb index outside 0..3"
+	}
+	return true, token.NoPos, ""
 }
